@@ -15,9 +15,14 @@ def mk(rng, g, depth, nrows, mode, position, kinds=("num", "case", "str", "pred"
     if position in ("select", "both"):
         for k in range(rng.choice([1, 2])):
             kind = rng.choice(kinds)
-            r = {"num": 0.1, "case": 0.6, "str": 0.7, "pred": 0.9, "cmp": 2, "parcmp": 2}[kind]
+            r = {"num": 0.1, "case": 0.6, "str": 0.7, "pred": 0.9, "cmp": 2, "parcmp": 2, "casechain": 2, "boolchain": 2}[kind]
             if kind == "cmp":
                 e = {"t": "cmp", "op": rng.choice(g.cmpops()), "a": g.numatom(), "b": g.numatom()}
+            elif kind == "casechain":   # top-level CASE whose conditions are flat AND / OR chains without parentheses (AND binds tighter), non-NULL data
+                e = {"t": "case", "whens": [{"c": g.flatchain(rng.choice([2, 3, 3])), "r": g.numatom(False) if rng.random() < 0.7 else exprgen.strlit(rng.choice(["p", "q"]))} for _ in range(rng.choice([1, 2]))]}
+                if rng.random() < 0.7: e["else"] = exprgen.num(rng.choice([0, 7]))
+            elif kind == "boolchain":   # a flat AND / OR chain as a boolean select item
+                e = g.flatchain(rng.choice([2, 3, 3]))
             elif kind == "parcmp":      # (col OP literal) as a select item: evaluated through the compiled-program cache of the expression bridge
                 e = exprgen.par({"t": "cmp", "op": rng.choice(["!=", ">", ">=", "<", "<=", "!="]), "a": exprgen.col(rng.choice(exprgen.NUMCOLS)), "b": exprgen.num(rng.choice([0, 1, 2, 3, 5]))})
             elif r < 0.5:
@@ -60,6 +65,7 @@ PROFILES = [  # (name, generator flags, positions, select-item kinds, share)   -
     ("case_top", dict(nulls=False, cases=False, nots=False, isnull_sel=False), ["select"], ("case",), 0.10),
     ("string_fn", dict(cases=False, nots=False), ["select"], ("str",), 0.08),
     ("select_cmp", dict(cases=False, nots=False, neq=False), ["select"], ("cmp",), 0.08),
+    ("select_chain", dict(nulls=False, cases=False, nots=False, paths=False, neq=False), ["select"], ("casechain", "boolchain"), 0.08),
     ("select_parcmp", dict(nulls=False, cases=False, nots=False, paths=False), ["select"], ("parcmp",), 0.06),
     ("where_full", dict(nulls=False, cases=False, nots=False), ["where", "both"], ("num", "str"), 0.20),
     ("where_flat", dict(nulls=False, cases=False, nots=False, flat=True), ["where"], ("num",), 0.12),
